@@ -70,6 +70,16 @@ package collection
 //@   ensures [f] result.objects == sumSpatial(result.objs) && result.nobjects == sumString(result.objs) && result.points == sumPoints(result.objs) && result.weight == sumWeight(result.objs)
 //@   ensures [inv] colInv(result)
 
+// BOUNDS (C19): the reported box is the exact bounding box of the spatially indexed objects: it contains the rectangle
+// of every one of them and each side is reached by one of them; all zero for an empty index.
+//@ ghost macro inSp(c, o) = c.spatial[o] > 0
+//@ func Collection.Bounds
+//@   requires c != nil
+//@   modifies nothing
+//@   uses rt.stored, rt.mono, rt.search.content
+//@   ensures [bounds.contain] allint(o, inSp(c, o) ==> minX <= gMinX(objGeo(o)) && minY <= gMinY(objGeo(o)) && gMaxX(objGeo(o)) <= maxX && gMaxY(objGeo(o)) <= maxY)
+//@   ensures [bounds.attained] !allint(o, c.spatial[o] == 0) ==> exint(o, inSp(c, o) && gMinX(objGeo(o)) == minX) && exint(o, inSp(c, o) && gMinY(objGeo(o)) == minY) && exint(o, inSp(c, o) && gMaxX(objGeo(o)) == maxX) && exint(o, inSp(c, o) && gMaxY(objGeo(o)) == maxY)
+//@   ensures [bounds.empty] allint(o, c.spatial[o] == 0) ==> minX == 0 && minY == 0 && maxX == 0 && maxY == 0
 //@ func Collection.Count
 //@   requires c != nil
 //@   modifies nothing
@@ -287,6 +297,8 @@ package collection
 // rt.round restates, for the real-number model used outside `ieee` functions, what the three IEEE obligations above
 // give: Down(a) <= float32(a) <= float32(b) <= Up(b) whenever a <= b.
 //@ axiom rt.round: allof("float64", a, allof("float64", b, a <= b ==> vdown(a) <= vup(b)))
+// rounding to the float32 grid is monotone in both directions (trusted restatement, like rt.round)
+//@ axiom rt.mono: allof("float64", a, allof("float64", b, a <= b ==> vdown(a) <= vdown(b) && vup(a) <= vup(b)))
 // the box an object is stored with (rtreeItem / rtreeRect, proved): rounded outwards from its rectangle
 //@ axiom rt.stored: allint(o, stMinX(o) == vdown(gMinX(objGeo(o))) && stMinY(o) == vdown(gMinY(objGeo(o))) && stMaxX(o) == vup(gMaxX(objGeo(o))) && stMaxY(o) == vup(gMaxY(objGeo(o))))
 // (rt.stored is what Insert/Delete are called with: their assumed contracts require exactly this box, see rtreeItem)
